@@ -3,6 +3,7 @@ from .mcommon import *
 from .roles import adt_of
 from .facts import strip_generics, Operand, Place
 from .analysis import sources
+from . import preds, poscontrol
 
 TECHNIQUE = 'match table of the QueueMode switch, method allow-list on the idle queue, call-graph reachability of user callbacks from public entry points, forbidden-callee inventory (spawn / timers) on resolved MIR callees'
 LEVEL_TEXT = 'static analysis of the getter pop site, every VecDeque method call on the idle queue and the whole call graph of the managed module'
@@ -141,7 +142,7 @@ def run(ctx):
                 continue
             n_calls += 1
             names = blk.term.callee_names()
-            bad = [n_ for n_ in names if n_.startswith(FORBIDDEN_PREFIX)]
+            bad = preds.spawn_names(names)
             if bad:
                 ctx.ob('R08.5', 'no spawn / background timer in the managed pool', False, ctx.where(b, blk.term.line), '/'.join(bad), construct='spawn:' + b.name)
             if any(n_ == 'deadpool_runtime::Runtime::timeout' for n_ in names):
@@ -149,6 +150,7 @@ def run(ctx):
                 ctx.ob('R08.5', 'timers only inside apply_timeout on the getter path', ok, ctx.where(b, blk.term.line), '', construct='timer:' + b.name)
     ctx.ob('R08.5', 'no spawn call found among all resolved callees', True, '', '%d calls scanned' % n_calls, construct='spawn:none', sites=[str(n_calls)])
     ctx.count('calls_scanned', n_calls)
+    poscontrol.assert_controls(ctx, ['spawn:'])
     ctx.floor('R08.5', 'calls scanned for spawn functions', n_calls, 300)
 
     ctx.not_decided += ['nothing material: the behavioural statement follows from VecDeque being a deque (trusted std)']
